@@ -937,3 +937,43 @@ def cast_histories_rule(ctx, run, rule, depth, classes=None, jobs=1):
                              "after this sequence of calls a buffer is not in the dtype / on the device the instrument declares",
                              file=str(prog.modules[(where or prog.classes[q]).module].path), line=(where.node if where else prog.classes[q].node).lineno, case=" ; ".join(seq)))
     run.notes.append(f"{rule}: {grand} cast / simulate sequences interpreted (alphabet of {len(CAST_ALPHABET)}, depth {depth}, {len(classes)} classes)")
+
+
+def python_container_store_nodes(ctx):
+    """ids of the AST nodes at which the scripted registry histories store into a Python container (dict / list registries of clauses,
+    underliers, buffers): C16's in-place coverage scan treats those sites as registry writes, which the histories judge, not as tensor writes"""
+    from .primaries import primary_classes
+    prog = ctx.prog
+    interp = Interp(prog, max_depth=20)
+    for k in list(interp.intrinsics):
+        if ".BaseDerivative." in k or ".BasePrimary." in k:
+            interp.intrinsics.pop(k)
+    interp.faithful_registry = True
+    nodes = set()
+
+    def collect(results):
+        for r in results:
+            for e in r["events"]:
+                if e["kind"] in ("dict_store", "store", "list_append") and e.get("node") is not None:
+                    nodes.add(id(e["node"]))
+    for c in CLASSES:
+        q = D + c
+        if q not in prog.classes:
+            continue
+        for name in ("clauses", "second", "rebind"):
+            fi = FuncInfo("synthetic.history_" + name, D + "base", ast.parse(HISTORIES[name]).body[0])
+            try:
+                collect(interp.explore(fi, [ClassRef(q)], dict(_world()), max_paths=40))
+            except Unsupported:
+                pass
+    for q in primary_classes(prog):
+        init = prog.lookup_method(q, "__init__")
+        required = [a.arg for a in init.node.args.args[1:len(init.node.args.args) - len(init.node.args.defaults)]] if init else []
+        extra = tuple(Sym(n, ("callable",)) if n.endswith("_fn") else Sym(n, ("float",)) for n in required)
+        fi = FuncInfo("synthetic.primary_history_buffers", "pfhedge.instruments.primary.base", ast.parse(PRIMARY_HISTORIES["buffers"]).body[0])
+        args = dict(extra=extra, x=Sym("x", ("tensor",)), y=Sym("y", ("tensor",)), v=Sym("v", ("tensor",)), N=Sym("N", ("int",)), M=Sym("M", ("int",)), h=Sym("h", ("float",)))
+        try:
+            collect(interp.explore(fi, [ClassRef(q)], args, max_paths=40))
+        except Unsupported:
+            pass
+    return nodes
